@@ -1,10 +1,11 @@
 CONSTANTS
   Names = {"a", "b", "c"}
-  ShapeIds = {1, 2, 3, 4, 5, 10}
+  ShapeIds = {1, 2, 3, 4, 5, 6, 9, 10, 11}
   ExtNames = {"a", "b", "c"}
   MaxMods = 8
   MaxExt = 5
   MaxToggle = 4
+  IllMaxStep = 16
   Depth = 16
 INIT Init
 NEXT Next
